@@ -230,6 +230,49 @@ def extract(repo):
         c = read(repo, 'scrunch/src/bit_vector/cf_rrr.rs')
         return eval_int(const_int(c, 'PARAM_WORDS_PER_BLOCK'))
     grab('scrunchCfRrrWordsPerBlock', cf_words)
+    # log framing (C12): sst/src/log.rs, sst/src/lib.rs
+    def nocomment(t):
+        return re.sub(r'//[^\n]*', '', t)
+    try:
+        lg = nocomment(read(repo, 'sst/src/log.rs'))
+        lib = nocomment(read(repo, 'sst/src/lib.rs'))
+    except OSError as ex:
+        lg, lib = '', ''
+        notes.append('log: sources unreadable (%s)' % ex)
+    logenv = {}
+    def logconst(key, name, src):
+        def f():
+            v = eval_int(' '.join(const_int(src, name).split()), logenv)
+            logenv[name] = v
+            return v
+        grab(key, f)
+    logconst('logBlockBits', 'BLOCK_BITS', lg)
+    logconst('logBlockSize', 'BLOCK_SIZE', lg)
+    logconst('logHeaderMaxSize', 'HEADER_MAX_SIZE', lg)
+    logconst('logMaxBatchSize', 'MAX_BATCH_SIZE', lg)
+    logconst('logHeaderWhole', 'HEADER_WHOLE', lg)
+    logconst('logHeaderFirst', 'HEADER_FIRST', lg)
+    logconst('logHeaderSecond', 'HEADER_SECOND', lg)
+    logconst('sstTableFullSize', 'TABLE_FULL_SIZE', lib)
+    def batch_limit():
+        # what `WriteBatch::put/del/merge` accept: `check_batch_size`
+        m = re.search(r'fn\s+check_batch_size\s*\(\s*size\s*:\s*usize\s*\)[^{]*\{\s*if\s+size\s+as\s+u64\s*>\s*(\w+)', lg)
+        if not m or m.group(1) not in logenv:
+            raise Missing('check_batch_size limit')
+        return logenv[m.group(1)]
+    grab('logBatchLimit', batch_limit)
+    def header_fields():
+        m = re.search(r'struct\s+Header\s*\{(.*?)\n\}', lg, re.S)
+        if not m:
+            raise Missing('struct Header')
+        fs = re.findall(r'#\[prototk\((\d+),\s*(\w+)\)\]\s*(\w+)\s*:', m.group(1))
+        wire = {'uint64': 0, 'uint32': 0, 'fixed32': 5}
+        if [f[2] for f in fs] != ['size', 'discriminant', 'crc32c'] or any(f[1] not in wire for f in fs):
+            raise Missing('Header fields changed: %r' % (fs,))
+        return fs, wire
+    for idx, nm in enumerate(['Size', 'Disc', 'Crc']):
+        grab('logHeader%sField' % nm, lambda idx=idx: int(header_fields()[0][idx][0]))
+        grab('logHeader%sWire' % nm, lambda idx=idx: header_fields()[1][header_fields()[0][idx][1]])
     return out, notes
 
 SST_WIRE = {'uint64': 0, 'uint32': 0, 'int64': 0, 'int32': 0, 'sint64': 0, 'sint32': 0, 'Bool': 0, 'fixed64': 1, 'sfixed64': 1,
